@@ -1,0 +1,224 @@
+//! Verification hooks, compiled only with the cargo feature `verif`.
+//!
+//! Offers a way to run a generated program fully in memory (byte buffers for
+//! stdin / stdout / LPT1, a headless screen, a map-backed stdlib) and to
+//! observe the virtual machine while it runs: an instruction budget, the depth
+//! of every internal stack before each instruction, and typed variable dumps
+//! at statement boundaries. Nothing in here changes what the interpreter does.
+
+use std::collections::HashMap;
+use std::io::Cursor;
+
+use rusty_parser::UserDefinedTypes;
+use rusty_variant::Variant;
+
+use super::interpreter_trait::InterpreterTrait;
+use super::main::Interpreter;
+use super::read_input::ReadInputSource;
+use super::screen::Screen;
+use super::stdlib::Stdlib;
+use super::write_printer::WritePrinter;
+use crate::instruction_generator::InstructionGeneratorResult;
+use crate::{RuntimeError, RuntimeErrorPos};
+
+/// Depths of the internal stacks, in this order:
+/// value, register, var path, by ref, return address, gosub, context states,
+/// stacktrace, memory blocks, argument-collecting states.
+pub type Depths = [usize; 10];
+
+#[derive(Clone, Debug)]
+pub struct InsnRecord {
+    /// Address of the instruction about to run.
+    pub pc: usize,
+    /// Stack depths before it runs.
+    pub depths: Depths,
+}
+
+#[derive(Clone, Debug)]
+pub struct VarRecord {
+    /// Index of the memory block holding the variable.
+    pub block: usize,
+    /// Debug rendering of the variable's `Name` (bare name and qualifier).
+    pub name: String,
+    pub value: Variant,
+}
+
+#[derive(Clone, Debug)]
+pub struct Dump {
+    /// Address of the statement about to start (or `usize::MAX` for the final dump).
+    pub pc: usize,
+    pub vars: Vec<VarRecord>,
+}
+
+#[derive(Clone, Debug, Default)]
+pub struct VerifOptions {
+    /// Maximum number of instructions to execute (0 = unlimited).
+    pub budget: u64,
+    /// Record an `InsnRecord` for every executed instruction.
+    pub trace_instructions: bool,
+    /// Record a `Dump` at every statement boundary (capped by `max_dumps`).
+    pub dump_at_statements: bool,
+    pub max_dumps: usize,
+    /// Record a final dump of all memory blocks.
+    pub dump_final: bool,
+}
+
+#[derive(Debug, Default)]
+pub struct VerifState {
+    pub options: VerifOptions,
+    pub steps: u64,
+    pub budget_exhausted: bool,
+    pub statement_addresses: Vec<usize>,
+    pub insns: Vec<InsnRecord>,
+    /// Addresses of the instructions that raised an error (in order).
+    pub errors: Vec<usize>,
+    pub dumps: Vec<Dump>,
+}
+
+impl VerifState {
+    pub fn begin(&mut self, statement_addresses: &[usize]) {
+        self.statement_addresses = statement_addresses.to_vec();
+    }
+
+    fn is_statement_boundary(&self, pc: usize) -> bool {
+        self.statement_addresses.binary_search(&pc).is_ok()
+    }
+}
+
+pub struct RunReport {
+    pub stdout: Vec<u8>,
+    pub lpt1: Vec<u8>,
+    pub result: Result<(), RuntimeErrorPos>,
+    pub steps: u64,
+    pub budget_exhausted: bool,
+    pub insns: Vec<InsnRecord>,
+    pub errors: Vec<usize>,
+    pub dumps: Vec<Dump>,
+    pub final_depths: Depths,
+}
+
+#[derive(Default)]
+pub struct MapStdlib {
+    pub env: HashMap<String, String>,
+}
+
+impl Stdlib for MapStdlib {
+    fn system(&self) {}
+
+    fn get_env_var(&self, name: &str) -> String {
+        self.env.get(name).cloned().unwrap_or_default()
+    }
+
+    fn set_env_var(&mut self, name: String, value: String) {
+        self.env.insert(name, value);
+    }
+}
+
+pub struct QuietScreen {
+    view_print: Option<(usize, usize)>,
+}
+
+impl Screen for QuietScreen {
+    fn cls(&self) -> Result<(), RuntimeError> {
+        Ok(())
+    }
+
+    fn background_color(&self, _color: i32) -> Result<(), RuntimeError> {
+        Ok(())
+    }
+
+    fn foreground_color(&self, _color: i32) -> Result<(), RuntimeError> {
+        Ok(())
+    }
+
+    fn move_to(&self, _row: u16, _col: u16) -> Result<(), RuntimeError> {
+        Ok(())
+    }
+
+    fn show_cursor(&self) -> Result<(), RuntimeError> {
+        Ok(())
+    }
+
+    fn hide_cursor(&self) -> Result<(), RuntimeError> {
+        Ok(())
+    }
+
+    fn get_view_print(&self) -> Option<(usize, usize)> {
+        self.view_print
+    }
+
+    fn set_view_print(&mut self, start_row: usize, end_row: usize) {
+        self.view_print = Some((start_row, end_row));
+    }
+
+    fn reset_view_print(&mut self) {
+        self.view_print = None;
+    }
+}
+
+type MemInterpreter =
+    Interpreter<MapStdlib, ReadInputSource<Cursor<Vec<u8>>>, WritePrinter<Vec<u8>>, WritePrinter<Vec<u8>>>;
+
+/// Runs the program in memory and reports everything that could be observed.
+pub fn run_in_memory(
+    instruction_generator_result: InstructionGeneratorResult,
+    user_defined_types: UserDefinedTypes,
+    stdin: Vec<u8>,
+    env: HashMap<String, String>,
+    options: VerifOptions,
+) -> RunReport {
+    let stdlib = MapStdlib { env };
+    let stdin = ReadInputSource::new(Cursor::new(stdin));
+    let stdout = WritePrinter::new(Vec::<u8>::new());
+    let lpt1 = WritePrinter::new(Vec::<u8>::new());
+    let mut interpreter: MemInterpreter = Interpreter::new(
+        stdlib,
+        stdin,
+        stdout,
+        lpt1,
+        QuietScreen { view_print: None },
+        user_defined_types,
+    );
+    interpreter.verif_state_mut().options = options;
+    let result = interpreter.interpret(instruction_generator_result);
+    if interpreter.verif_state_mut().options.dump_final {
+        let vars = interpreter.context().verif_all_variables();
+        interpreter.verif_state_mut().dumps.push(Dump {
+            pc: usize::MAX,
+            vars,
+        });
+    }
+    let final_depths = interpreter.verif_depths();
+    let state = std::mem::take(interpreter.verif_state_mut());
+    RunReport {
+        stdout: interpreter.stdout().verif_writer().clone(),
+        lpt1: interpreter.lpt1().verif_writer().clone(),
+        result,
+        steps: state.steps,
+        budget_exhausted: state.budget_exhausted,
+        insns: state.insns,
+        errors: state.errors,
+        dumps: state.dumps,
+        final_depths,
+    }
+}
+
+/// Called by the fetch-execute loop before each instruction.
+/// Returns `true` if the program must stop because the budget is exhausted.
+pub fn before_instruction(state: &mut VerifState, pc: usize, depths: Depths) -> bool {
+    if state.options.budget > 0 && state.steps >= state.options.budget {
+        state.budget_exhausted = true;
+        return true;
+    }
+    state.steps += 1;
+    if state.options.trace_instructions {
+        state.insns.push(InsnRecord { pc, depths });
+    }
+    false
+}
+
+pub fn wants_dump(state: &VerifState, pc: usize) -> bool {
+    state.options.dump_at_statements
+        && state.dumps.len() < state.options.max_dumps
+        && state.is_statement_boundary(pc)
+}
